@@ -59,9 +59,10 @@ type cCluster struct {
 	snapI time.Duration
 	skew  []int64 // per node index: offset of the node's clock from the cluster clock (witness lane only)
 
-	mu      sync.Mutex
-	applied map[string][]applyEv
-	nApply  atomic.Int64
+	mu       sync.Mutex
+	applied  map[string][]applyEv
+	nApply   atomic.Int64
+	inFlight atomic.Int64 // state machine applies and restores begun and not finished (all nodes of this cluster)
 
 	lastKey atomic.Value // string: "<db> <key>" of the entry applied most recently (steers the race lane's readers)
 
@@ -128,8 +129,22 @@ func newCluster(ctx *Ctx, withDirs bool, snapT uint64, snapI time.Duration) *cCl
 			}
 			return
 		}
+		// applies and snapshot restores in flight (begun, not finished) on the nodes of this cluster
+		if name == "fsm.applied" || name == "fsm.restore" || name == "fsm.restored" {
+			if id, _ := args[0].(string); strings.HasPrefix(id, c.tag+"-") {
+				if name == "fsm.restore" {
+					c.inFlight.Add(1)
+				} else {
+					c.inFlight.Add(-1)
+				}
+			}
+			return
+		}
 		if name != "fsm.apply" || len(args) < 3 {
 			return
+		}
+		if id, _ := args[0].(string); strings.HasPrefix(id, c.tag+"-") {
+			c.inFlight.Add(1)
 		}
 		id, _ := args[0].(string)
 		if !strings.HasPrefix(id, c.tag+"-") {
@@ -297,12 +312,23 @@ func (c *cCluster) quiesce() bool {
 		ls := c.stats(l)
 		want := ls["last_log_index"]
 		sig := want + "|" + strconv.FormatInt(c.nApply.Load(), 10)
+		// raft counts an entry as applied when it hands it to the state machine goroutine, and a batch leaves
+		// fsm_pending when that goroutine takes it: the state machine is at rest only when every apply and
+		// restore that began has also finished (fsm.applied / fsm.restored events)
+		if c.inFlight.Load() != 0 {
+			stable = 0
+			return false
+		}
 		for _, n := range c.aliveNodes() {
 			st := c.stats(n)
 			if st["applied_index"] != want || st["fsm_pending"] != "0" {
 				stable = 0
 				return false
 			}
+		}
+		if c.inFlight.Load() != 0 {
+			stable = 0
+			return false
 		}
 		if sig == last {
 			stable++
